@@ -144,6 +144,48 @@ func (ck *checker) observe(idx bleve.Index, model map[string]int, path []op, sta
 			continue
 		}
 		fmt.Fprintf(&sig, "|%d", len(got))
+		// the same request paged with SearchAfter / SearchBefore (sorted by _id) or From must return
+		// the same parents: the collector folds nested documents into their parent on every paging path
+		for _, mode := range []string{"search-after", "search-before", "from"} {
+			req := bleve.NewSearchRequest(q.ToBleve())
+			req.Size = 40
+			req.SortBy([]string{"_id"})
+			switch mode {
+			case "search-after":
+				req.SetSearchAfter([]string{""})
+			case "search-before":
+				req.SetSearchBefore([]string{"\U0010ffff"})
+			case "from":
+				req.Size, req.From = 39, 0
+			}
+			var res *bleve.SearchResult
+			var err error
+			pv, st := mc.Try(func() { res, err = idx.Search(req) })
+			r.Eval(1)
+			if pv != nil || err != nil {
+				ck.bk.add("history:"+stage+":paging:"+mode+":error", &example{cost: cost, key: histString(path) + q.String(),
+					detail: fmt.Sprintf("[%s] after %s: %s with %s: err=%v panic=%v %s", stage, histString(path), q, mode, err, pv, mc.TrimStack(st)), replay: where()})
+				continue
+			}
+			ids := map[string]bool{}
+			for _, h := range res.Hits {
+				ids[h.ID] = true
+			}
+			same := len(ids) == len(got) && len(res.Hits) == len(ids) && int(res.Total) == len(got)
+			for id := range got {
+				if !ids[id] {
+					same = false
+				}
+			}
+			if !same {
+				var l []string
+				for _, h := range res.Hits {
+					l = append(l, h.ID)
+				}
+				ck.bk.add("history:"+stage+":paging:"+mode+":differs-from-plain-search", &example{cost: cost, key: histString(path) + q.String(),
+					detail: fmt.Sprintf("[%s] after %s: %s sorted by _id with %s returns %v (Total %d), the plain search %d parents", stage, histString(path), q, mode, l, res.Total, len(got)), replay: where()})
+			}
+		}
 		for id := range got {
 			if _, live := model[id]; !live {
 				ck.bk.add("history:"+stage+":dead-parent-returned:"+lastOpOn(path, id), &example{cost: cost, key: histString(path) + q.String(),
